@@ -12,6 +12,7 @@ open Options
 open OutViews
 open Plain
 open Pragma
+open SiteCheck
 open State
 open Str
 open String
